@@ -4,9 +4,9 @@
 use crate::wire::*;
 use domain::base::name::ParsedName;
 use domain::base::{Message, ParsedRecord, Question};
-use domain::new::base::name::{NameBuf, RevNameBuf};
+use domain::new::base::name::{Name as NewName, NameBuf, RevNameBuf, UnparsedName};
 use domain::new::base::parse::{MessageParser, SplitMessageBytes};
-use domain::new::base::wire::AsBytes;
+use domain::new::base::wire::{AsBytes, ParseBytes, SplitBytes};
 use domain::new::base::{MessageItem, UnparsedRecordData};
 use domain::new::rdata::RecordData;
 use domain::rdata::AllRecordData;
@@ -31,6 +31,30 @@ fn kind(t: u16) -> &'static str {
         65280..=65534 => "raw",
         _ => "opaque",
     }
+}
+
+/// Where the referee gives no verdict on the RDATA (part of a case's input,
+/// computed by Wire.tla `CodecCase`): the call is still made, and once the
+/// record's framing is read the executor reports "undecided".  Recorders
+/// have no such knowledge (`Mask::none`): they report what the code said and
+/// TLC ignores the verdicts the referee leaves open.
+pub struct Mask {
+    pub rs: Vec<bool>,
+    pub msg: i64,
+    pub rn: Vec<bool>,
+    pub ro: Vec<bool>,
+}
+impl Mask {
+    pub fn none() -> Mask {
+        Mask { rs: vec![], msg: -1, rn: vec![], ro: vec![] }
+    }
+    pub fn of(v: &Value) -> Mask {
+        let bools = |x: &Value| x.as_array().map(|a| a.iter().map(|b| b.as_bool().unwrap_or(false)).collect()).unwrap_or_default();
+        Mask { rs: bools(&v["rs"]), msg: v["msg"].as_i64().unwrap_or(-1), rn: bools(&v["rn"]), ro: bools(&v["ro"]) }
+    }
+}
+fn at(v: &[bool], i: usize) -> bool {
+    v.get(i).copied().unwrap_or(false)
 }
 
 /// types whose RDATA the referee does not know but both codecs do: for
@@ -132,29 +156,68 @@ fn old_parser<'a>(m: &'a &'a [u8], start: usize) -> Option<Parser<'a, &'a [u8]>>
     Some(p)
 }
 
-fn old_record_item(rec: &ParsedRecord<'_, &[u8]>) -> Result<Option<Value>, ()> {
+/// The item of a record the established codec has parsed: owner, type, class,
+/// TTL halves, the names inside the RDATA, the options.  Err: the RDATA is
+/// rejected.
+fn old_record_item(rec: &ParsedRecord<'_, &[u8]>) -> Result<Value, ()> {
     let t = rec.rtype().to_int();
-    if kind(t) == "opaque" {
-        let _ = rec.to_any_record::<AllRecordData<_, ParsedName<_>>>().is_ok();
-        return Ok(None);
-    }
-    let rd = old_rd(rec);
-    if rd["ok"] != json!(true) {
-        return Err(());
-    }
+    let (names, opts) = if kind(t) != "opaque" {
+        let rd = old_rd(rec);
+        if rd["ok"] != json!(true) {
+            return Err(());
+        }
+        (rd["names"].clone(), rd["opts"].clone())
+    } else {
+        let r = rec.to_any_record::<AllRecordData<_, ParsedName<_>>>().map_err(|_| ())?;
+        exercise_record(&r);
+        let mut names = vec![];
+        match r.data() {
+            AllRecordData::Srv(d) => names.push(use_name(d.target())),
+            AllRecordData::Dname(d) => names.push(use_name(d.dname())),
+            AllRecordData::Nsec(d) => names.push(use_name(d.next_name())),
+            AllRecordData::Rrsig(d) => names.push(use_name(d.signer_name())),
+            AllRecordData::Rp(d) => {
+                names.push(use_name(d.mbox()));
+                names.push(use_name(d.txt()));
+            }
+            _ => {}
+        }
+        (Value::Array(names), json!([]))
+    };
     let ttl = rec.ttl().as_secs();
-    Ok(Some(json!([labels_json(rec.owner().iter()), t, rec.class().to_int(), (ttl >> 16) as u16,
-                   (ttl & 0xFFFF) as u16, rd["names"], rd["opts"]])))
+    Ok(json!([labels_json(rec.owner().iter()), t, rec.class().to_int(), (ttl >> 16) as u16,
+              (ttl & 0xFFFF) as u16, names, opts]))
 }
 
-pub fn old_view(m: &[u8], starts: &[usize]) -> Value {
+/// a record read at `start` of `m` by the established codec's message route
+fn old_rs_at(m: &[u8], start: usize, undecided: bool) -> Value {
+    let mref: &[u8] = m;
+    match old_parser(&mref, start) {
+        Some(mut p) => match ParsedRecord::parse(&mut p) {
+            Ok(rec) => {
+                let item = old_record_item(&rec);
+                if undecided {
+                    return und();
+                }
+                match item {
+                    Ok(item) => okv(item, p.pos()),
+                    Err(()) => fail(),
+                }
+            }
+            Err(_) => fail(),
+        },
+        None => fail(),
+    }
+}
+
+pub fn old_view(m: &[u8], starts: &[usize], mask: &Mask) -> Value {
     let mref: &[u8] = m;
     let mut names = vec![];
     let mut qs = vec![];
     let mut rs = vec![];
     let mut acc = vec![];
     let mut edns = vec![];
-    for &s in starts {
+    for (i, &s) in starts.iter().enumerate() {
         edns.push(old_edns(m, s));
         acc.push(match old_parser(&mref, s) {
             Some(mut p) => match ParsedRecord::parse(&mut p) {
@@ -179,19 +242,47 @@ pub fn old_view(m: &[u8], starts: &[usize]) -> Value {
             },
             None => fail(),
         });
-        rs.push(match old_parser(&mref, s) {
-            Some(mut p) => match ParsedRecord::parse(&mut p) {
-                Ok(rec) => match old_record_item(&rec) {
-                    Ok(Some(item)) => okv(item, p.pos()),
-                    Ok(None) => und(),
-                    Err(()) => fail(),
-                },
-                Err(_) => fail(),
-            },
-            None => fail(),
-        });
+        rs.push(old_rs_at(m, s, at(&mask.rs, i)));
     }
-    json!({"names": names, "qs": qs, "rs": rs, "msg": old_msg_view(m), "acc": acc, "edns": edns})
+    json!({"names": names, "qs": qs, "rs": rs, "msg": old_msg_view(m, mask.msg), "acc": acc, "edns": edns})
+}
+
+/// The routes of the established codec that read a byte string without a
+/// message around it: Name::parse (split), Name::from_octets / from_slice
+/// (exact), ParsedName::skip, and the string handed to the record reader as
+/// if it were a message.
+pub fn old_plain(m: &[u8], probes: &[(usize, usize)], mask: &Mask) -> Value {
+    let mut out = vec![];
+    for (i, &(s, e)) in probes.iter().enumerate() {
+        let b: &[u8] = &m[s.min(m.len())..e.min(m.len())];
+        out.push(observe(|| {
+            let bref: &[u8] = b;
+            let exact = domain::base::Name::from_octets(b).is_ok();
+            assert_eq!(exact, domain::base::Name::from_slice(b).is_ok(), "from_octets and from_slice differ");
+            let mut p = Parser::from_ref(&bref);
+            let n = match domain::base::Name::parse(&mut p) {
+                Ok(n) => {
+                    assert_eq!(n.as_slice(), &b[..p.pos()], "Name::parse returns other octets");
+                    let _ = format!("{} {:?}", n, n);
+                    json!({"ok": true, "item": [labels_json(n.iter())], "next": p.pos(), "exact": exact})
+                }
+                Err(_) => {
+                    assert!(!exact, "from_octets accepts what Name::parse rejects");
+                    json!({"ok": false, "item": [], "next": 0, "exact": false})
+                }
+            };
+            let mut p = Parser::from_ref(&bref);
+            let sk = match ParsedName::skip(&mut p) {
+                Ok(()) => json!({"ok": true, "next": p.pos()}),
+                Err(_) => json!({"ok": false, "next": 0}),
+            };
+            let mut ro = old_rs_at(b, 0, at(&mask.ro, i));
+            let exact = ro["ok"] == json!(true) && ro["next"] == json!(b.len());
+            ro["exact"] = json!(exact);
+            json!({"n": n, "sk": sk, "ro": ro})
+        }));
+    }
+    Value::Array(out)
 }
 
 fn no_edns() -> Value {
@@ -227,7 +318,7 @@ fn old_edns(m: &[u8], start: usize) -> Value {
 }
 
 /// the new API's flattened view, computed with the established iterators
-fn old_msg_view(m: &[u8]) -> Value {
+fn old_msg_view(m: &[u8], und_at: i64) -> Value {
     let msg = match Message::from_octets(m) {
         Ok(x) => x,
         Err(_) => return json!({"items": [], "end": "short"}),
@@ -252,11 +343,16 @@ fn old_msg_view(m: &[u8]) -> Value {
             match sec.next() {
                 None => break,
                 Some(Err(_)) => return json!({"items": items, "end": "err"}),
-                Some(Ok(rec)) => match old_record_item(&rec) {
-                    Ok(Some(item)) => items.push(json!([if edns { 4 } else { secno }, item])),
-                    Ok(None) => return json!({"items": items, "end": "und"}),
-                    Err(()) => return json!({"items": items, "end": "err"}),
-                },
+                Some(Ok(rec)) => {
+                    let item = old_record_item(&rec);
+                    if items.len() as i64 == und_at {
+                        return json!({"items": items, "end": "und"});
+                    }
+                    match item {
+                        Ok(item) => items.push(json!([if edns { 4 } else { secno }, item])),
+                        Err(()) => return json!({"items": items, "end": "err"}),
+                    }
+                }
             }
         }
         match sec.next_section() {
@@ -311,31 +407,57 @@ fn opt_pairs(bytes: &[u8]) -> Value {
 
 type NewRecord<'a> = domain::new::base::Record<RevNameBuf, RecordData<'a, NameBuf>>;
 
-fn new_record_item(r: &NewRecord<'_>) -> Option<Value> {
-    let t = r.rtype.code.get();
-    if kind(t) == "opaque" {
-        return None;
+/// the labels of a name of the new API, whichever type holds it
+trait Lbl: std::fmt::Debug {
+    fn lbl(&self) -> Value;
+}
+impl Lbl for &NewName {
+    fn lbl(&self) -> Value {
+        wire_labels(self.as_bytes())
     }
+}
+impl Lbl for NameBuf {
+    fn lbl(&self) -> Value {
+        wire_labels(self.as_bytes())
+    }
+}
+impl Lbl for RevNameBuf {
+    fn lbl(&self) -> Value {
+        rev_labels(self.as_bytes())
+    }
+}
+
+/// the item of a record the new codec has parsed (see old_record_item)
+fn new_record_item<N: Lbl, D: Lbl>(r: &domain::new::base::Record<N, RecordData<'_, D>>) -> Value {
+    let t = r.rtype.code.get();
     let mut names = vec![];
     let mut opts = json!([]);
     match &r.rdata {
-        RecordData::Ns(d) => names.push(wire_labels(d.server.as_bytes())),
-        RecordData::CName(d) => names.push(wire_labels(d.name.as_bytes())),
-        RecordData::Ptr(d) => names.push(wire_labels(d.name.as_bytes())),
-        RecordData::Mx(d) => names.push(wire_labels(d.exchange.as_bytes())),
+        RecordData::Ns(d) => names.push(d.server.lbl()),
+        RecordData::CName(d) => names.push(d.name.lbl()),
+        RecordData::Ptr(d) => names.push(d.name.lbl()),
+        RecordData::Mx(d) => names.push(d.exchange.lbl()),
         RecordData::Soa(d) => {
-            names.push(wire_labels(d.mname.as_bytes()));
-            names.push(wire_labels(d.rname.as_bytes()));
+            names.push(d.mname.lbl());
+            names.push(d.rname.lbl());
         }
+        RecordData::Rp(d) => {
+            names.push(d.mailbox.lbl());
+            names.push(d.texts.lbl());
+        }
+        RecordData::Srv(d) => names.push(wire_labels(d.name.as_bytes())),
+        RecordData::DName(d) => names.push(wire_labels(d.name.as_bytes())),
+        RecordData::Nsec(d) => names.push(wire_labels(d.next.as_bytes())),
+        RecordData::Rrsig(d) => names.push(wire_labels(d.signer.as_bytes())),
         RecordData::Opt(o) => opts = opt_pairs(o.as_bytes()),
         _ => {}
     }
+    let _ = format!("{:?}", r.rdata);
     let ttl = r.ttl.value.get();
-    Some(json!([rev_labels(r.rname.as_bytes()), t, r.rclass.code.get(), (ttl >> 16) as u16,
-                (ttl & 0xFFFF) as u16, names, opts]))
+    json!([r.rname.lbl(), t, r.rclass.code.get(), (ttl >> 16) as u16, (ttl & 0xFFFF) as u16, names, opts])
 }
 
-pub fn new_view(m: &[u8], starts: &[usize]) -> Value {
+pub fn new_view(m: &[u8], starts: &[usize], mask: &Mask) -> Value {
     let mut names = vec![];
     let mut qs = vec![];
     let mut rs = vec![];
@@ -345,7 +467,7 @@ pub fn new_view(m: &[u8], starts: &[usize]) -> Value {
     let contents = &m[12..];
     let mut acc = vec![];
     let mut edns = vec![];
-    for &s in starts {
+    for (i, &s) in starts.iter().enumerate() {
         let st = s - 12;
         edns.push(new_edns(contents, st));
         acc.push(
@@ -372,21 +494,148 @@ pub fn new_view(m: &[u8], starts: &[usize]) -> Value {
             Ok((q, rest)) => okv(json!([rev_labels(q.qname.as_bytes()), q.qtype.code.get(), q.qclass.code.get()]), rest + 12),
             Err(_) => fail(),
         });
-        rs.push(match NewRecord::split_message_bytes(contents, st) {
-            Ok((r, rest)) => match new_record_item(&r) {
-                Some(item) => okv(item, rest + 12),
-                None => und(),
-            },
-            Err(_) => {
-                // undecided when the type is opaque to the spec
-                match domain::new::base::Record::<RevNameBuf, &UnparsedRecordData>::split_message_bytes(contents, st) {
-                    Ok((r, _)) if kind(r.rtype.code.get()) == "opaque" => und(),
-                    _ => fail(),
+        // the framing first (owner, fixed fields, RDLENGTH octets present), then the RDATA
+        let framed = domain::new::base::Record::<RevNameBuf, &UnparsedRecordData>::split_message_bytes(contents, st).is_ok();
+        let full = NewRecord::split_message_bytes(contents, st);
+        // the other name types in the same places give the same verdict
+        let alt = domain::new::base::Record::<NameBuf, RecordData<'_, RevNameBuf>>::split_message_bytes(contents, st);
+        rs.push(if full.is_ok() != alt.is_ok() {
+            json!({"ok": "Record<RevNameBuf, RecordData<NameBuf>> and Record<NameBuf, RecordData<RevNameBuf>> disagree"})
+        } else if !framed {
+            assert!(full.is_err(), "a record is read whose framing is not");
+            fail()
+        } else if at(&mask.rs, i) {
+            und()
+        } else {
+            match (full, alt) {
+                (Ok((r, rest)), Ok((r2, rest2))) => {
+                    let item = new_record_item(&r);
+                    if item != new_record_item(&r2) || rest != rest2 {
+                        json!({"ok": "name types disagree on the content", "a": item, "b": new_record_item(&r2)})
+                    } else {
+                        okv(item, rest + 12)
+                    }
                 }
+                _ => fail(),
             }
         });
     }
-    json!({"names": names, "qs": qs, "rs": rs, "msg": new_msg_view(m), "acc": acc, "edns": edns})
+    json!({"names": names, "qs": qs, "rs": rs, "msg": new_msg_view(m, mask.msg), "acc": acc, "edns": edns})
+}
+
+fn plain_fail() -> Value {
+    json!({"ok": false, "item": [], "next": 0, "exact": false})
+}
+
+/// one route of the new codec on a byte string: split (value and what is
+/// left) and parse (the whole string) with one name type
+fn new_name_route<'a, N: SplitBytes<'a> + ParseBytes<'a> + Lbl>(b: &'a [u8]) -> Value {
+    let exact = N::parse_bytes(b).map(|n| n.lbl());
+    match N::split_bytes(b) {
+        Ok((n, rest)) => {
+            let next = b.len() - rest.len();
+            let l = n.lbl();
+            match exact {
+                Ok(e) => {
+                    assert!(rest.is_empty(), "parse_bytes accepts a string that split_bytes does not use up");
+                    assert_eq!(e, l, "parse_bytes and split_bytes give different names");
+                }
+                Err(_) => assert!(!rest.is_empty(), "parse_bytes rejects what split_bytes uses up"),
+            }
+            json!({"ok": true, "item": [l], "next": next, "exact": rest.is_empty()})
+        }
+        Err(_) => {
+            assert!(exact.is_err(), "parse_bytes accepts what split_bytes rejects");
+            plain_fail()
+        }
+    }
+}
+
+fn new_question_route<'a, N: SplitBytes<'a> + Lbl>(b: &'a [u8]) -> Value {
+    use domain::new::base::Question as NQ;
+    let exact = NQ::<N>::parse_bytes(b).is_ok();
+    match NQ::<N>::split_bytes(b) {
+        Ok((q, rest)) => {
+            assert_eq!(exact, rest.is_empty(), "Question: parse_bytes and split_bytes differ on the end");
+            json!({"ok": true, "item": [q.qname.lbl(), q.qtype.code.get(), q.qclass.code.get()],
+                   "next": b.len() - rest.len(), "exact": exact})
+        }
+        Err(_) => {
+            assert!(!exact, "Question: parse_bytes accepts what split_bytes rejects");
+            plain_fail()
+        }
+    }
+}
+
+fn new_record_route<'a, N: SplitBytes<'a> + Lbl>(b: &'a [u8], undecided: bool) -> Value {
+    use domain::new::base::Record as NR;
+    let framed = NR::<N, &UnparsedRecordData>::split_bytes(b).is_ok();
+    let exact = NR::<N, RecordData<'a, N>>::parse_bytes(b).is_ok();
+    let full = NR::<N, RecordData<'a, N>>::split_bytes(b);
+    if !framed {
+        assert!(full.is_err() && !exact, "a record is read whose framing is not");
+        let mut v = fail();
+        v["exact"] = json!(false);
+        return v;
+    }
+    if undecided {
+        let mut v = und();
+        v["exact"] = json!(false);
+        return v;
+    }
+    match full {
+        Ok((r, rest)) => {
+            assert_eq!(exact, rest.is_empty(), "Record: parse_bytes and split_bytes differ on the end");
+            let mut v = okv(new_record_item(&r), b.len() - rest.len());
+            v["exact"] = json!(exact);
+            v
+        }
+        Err(_) => {
+            assert!(!exact, "Record: parse_bytes accepts what split_bytes rejects");
+            let mut v = fail();
+            v["exact"] = json!(false);
+            v
+        }
+    }
+}
+
+fn all_same(what: &str, a: Value, b: Value, c: Value) -> Value {
+    if a == b && b == c {
+        a
+    } else {
+        json!({"ok": format!("{}: &Name, NameBuf and RevNameBuf disagree", what), "ref": a, "buf": b, "rev": c})
+    }
+}
+
+/// The routes of the new codec that read a byte string without a message
+/// around it (ParseBytes / SplitBytes), with every name type that has them.
+pub fn new_plain(m: &[u8], probes: &[(usize, usize)], mask: &Mask) -> Value {
+    let mut out = vec![];
+    for (i, &(s, e)) in probes.iter().enumerate() {
+        let b: &[u8] = &m[s.min(m.len())..e.min(m.len())];
+        let u = at(&mask.rn, i);
+        let part = |f: &dyn Fn() -> Value| observe(|| f());
+        let n = all_same("name",
+            part(&|| new_name_route::<&NewName>(b)), part(&|| new_name_route::<NameBuf>(b)), part(&|| new_name_route::<RevNameBuf>(b)));
+        let sk = part(&|| match <&UnparsedName>::split_bytes(b) {
+            Ok((_, rest)) => {
+                assert_eq!(<&UnparsedName>::parse_bytes(b).is_ok(), rest.is_empty());
+                json!({"ok": true, "next": b.len() - rest.len()})
+            }
+            Err(_) => {
+                assert!(<&UnparsedName>::parse_bytes(b).is_err());
+                json!({"ok": false, "next": 0})
+            }
+        });
+        let q = all_same("question",
+            part(&|| new_question_route::<&NewName>(b)), part(&|| new_question_route::<NameBuf>(b)),
+            part(&|| new_question_route::<RevNameBuf>(b)));
+        let rn = all_same("record",
+            part(&|| new_record_route::<&NewName>(b, u)), part(&|| new_record_route::<NameBuf>(b, u)),
+            part(&|| new_record_route::<RevNameBuf>(b, u)));
+        out.push(json!({"n": n, "sk": sk, "q": q, "rn": rn}));
+    }
+    Value::Array(out)
 }
 
 fn edns_fields(e: &domain::new::edns::EdnsRecord<&domain::new::rdata::Opt>) -> Value {
@@ -426,7 +675,7 @@ fn new_edns(contents: &[u8], st: usize) -> Value {
     }
 }
 
-fn new_msg_view(m: &[u8]) -> Value {
+fn new_msg_view(m: &[u8], und_at: i64) -> Value {
     let mut p = match MessageParser::new(m) {
         Ok(p) => p,
         Err(_) => return json!({"items": [], "end": "short"}),
@@ -454,18 +703,17 @@ fn new_msg_view(m: &[u8]) -> Value {
                         continue;
                     }
                 };
-                match new_record_item(&rec) {
-                    Some(v) => items.push(json!([tag, v])),
-                    None => return json!({"items": items, "end": "und"}),
+                let item = new_record_item(&rec);
+                if items.len() as i64 == und_at {
+                    return json!({"items": items, "end": "und"});
                 }
+                items.push(json!([tag, item]));
             }
             Some(Err(_)) => {
-                // an opaque type at the failing offset leaves the verdict open
-                let u = domain::new::base::Record::<RevNameBuf, &UnparsedRecordData>::split_message_bytes(contents, off);
-                let end = match u {
-                    Ok((r, _)) if kind(r.rtype.code.get()) == "opaque" && !items.is_empty() => "und",
-                    _ => "err",
-                };
+                // where the referee leaves the RDATA open a record whose
+                // framing is read leaves the verdict open
+                let framed = domain::new::base::Record::<RevNameBuf, &UnparsedRecordData>::split_message_bytes(contents, off).is_ok();
+                let end = if items.len() as i64 == und_at && framed { "und" } else { "err" };
                 assert!(p.next().is_none(), "new MessageParser not fused after an error");
                 return json!({"items": items, "end": end});
             }
@@ -473,11 +721,13 @@ fn new_msg_view(m: &[u8]) -> Value {
     }
 }
 
-pub fn codec_view(m: &[u8], starts: &[usize]) -> Value {
-    let old = observe(|| old_view(m, starts));
-    let new = observe(|| new_view(m, starts));
-    let old2 = observe(|| old_view(m, starts));
-    let new2 = observe(|| new_view(m, starts));
+pub fn codec_view(m: &[u8], starts: &[usize], probes: &[(usize, usize)], mask: &Mask) -> Value {
+    let old = observe(|| old_view(m, starts, mask));
+    let new = observe(|| new_view(m, starts, mask));
+    let old2 = observe(|| old_view(m, starts, mask));
+    let new2 = observe(|| new_view(m, starts, mask));
+    let pold = observe(|| old_plain(m, probes, mask));
+    let pnew = observe(|| new_plain(m, probes, mask));
     let nonidem = old2 != old || new2 != new;
     let agree = old == new;
     // the accept / reject verdicts on RDATA the referee does not know are
@@ -488,7 +738,7 @@ pub fn codec_view(m: &[u8], starts: &[usize]) -> Value {
     };
     let (old, oacc) = strip(old);
     let (new, nacc) = strip(new);
-    let mut o = json!({"agree": agree, "old": old, "new": new});
+    let mut o = json!({"agree": agree, "old": old, "new": new, "pold": pold, "pnew": pnew});
     if oacc != nacc {
         // each differing verdict must be one of the documented disagreements
         let mut devs: Vec<String> = vec![];
